@@ -256,3 +256,24 @@ def install_ot_stub(stub):
         emd2 = staticmethod(stub.emd2)
     gd.ot = _OT
     return gd
+
+
+def affinity_candidates(kind, n, A_model):
+    """affinities to replay with: the solver's own, plus generic ones (the solver is free to pick a degenerate
+    affinity -- e.g. an all-zero metric -- because transport costs / radicals are abstracted; the claim is for every
+    symmetric affinity, so any of them reproducing the failure is a counterexample)."""
+    if kind not in ("mmd", "w"):
+        return [None]
+    out = [A_model]
+    idx = np.arange(n)
+    line = np.abs(idx[:, None] - idx[None, :]).astype(float)
+    rng = np.random.default_rng(7)
+    R = rng.uniform(0.2, 2.0, size=(n, n))
+    R = (R + R.T) / 2
+    if kind == "w":
+        np.fill_diagonal(R, 0.0)
+        out += [line, R, line ** 2]
+    else:
+        G = rng.normal(size=(n, 3))
+        out += [G @ G.T, np.exp(-line), R]
+    return out
